@@ -26,7 +26,7 @@ CHECKS = {
  'C08': ('model_checking',
          'TLA+ Paging128 specification model-checked (lock, ROM, one-bank-per-write as invariants/action properties) + every recorded paging step of the real simulators validated as a Paging128 action by TLC',
          'Exhaustive model check of the paging state machine; every (o7ffd state x port class x value) edge and random histories are driven through real OUT (C),r / OUT (n),A / OUTI / OUTD / OTIR / OTDR and LD (nn),A instructions on the four simulators (128K Memory + trace.Tracer) and through skoolutils.Memory; TLC validates each recorded step (o7ffd, tracer copy, CPU-visible and Python-visible page ids, one cell per physical page) as the corresponding spec action; register ranges, ROM immutability and T monotonicity are evaluated on single steps of all 1792 opcode slots (48K and locked 128K memory, where a store into a page that is not mapped in is visible) and on every slot followed by an accepted frame interrupt with SP at the ROM/RAM/64K edges (real trace loops of all four simulators).',
-         'Quick tier samples 6 of 69 values per edge; thorough uses all 256. One data cell per physical page stands for the bank contents.',
+         'Quick tier samples 6 of 69 values per edge; thorough uses all 256. One data cell per physical page stands for the bank contents. skoolutils.Memory is also driven through copy() before every action with identical bank contents (pages identified by identity). LDIR/LDDR/DJNZ loops run as one run(start, stop) call with fast_ldir/fast_djnz (copies crossing 0xFFFF and descending into the ROM) are judged for ROM writes and register ranges by FastRun.tla.',
          'DESIGN.md §4 C08'),
  'C19': ('model_checking',
          'TLA+ ULA/bus-cycle specification (Z80Bus: Delay48/128, per-instruction machine cycles, I/O patterns); TLC judges recorded single steps of the contended simulators at chosen frame positions',
@@ -46,7 +46,7 @@ CHECKS = {
  'C14': ('model_checking',
          'TLA+ CtlGen specification of the directive-map algorithm (FindTerminal transcribed) model-checked for the tiling invariant; TLC judges recorded calls of the real _find_terminal_instruction and the control files sna2ctl writes (order, terminator, code map inside code blocks, sna2skool/skool2bin consequences)',
          'Exhaustive model check over all abstract images of 5 addresses (instruction lengths 1-3, END flags, code sets); the real _find_terminal_instruction is bound to the specification operator on random abstract images; real sna2ctl.main runs on image classes (incl. structured multi-routine programs with untaken calls and indirect jumps, ranges ending mid-instruction) with code maps in five formats built from real simulator traces, plus every opcode slot (1792) once in straight-line images with a straight-line code map and -C; then sna2skool and skool2bin on its output.',
-         'Termination is bounded liveness (20 s CPU cap per run). Arbitrary (non-trace) address sets are judged for termination/tiling/map-in-code only. An overlap warning caused by a code-map instruction that straddles the requested END is inherent in the input and not counted.',
+         'Termination is bounded liveness (20 s CPU cap per run). Deterministic sweeps: every opcode slot with a straight-line code map; 49 instruction patterns cut at every byte by the top of memory or by -e; RST programs with inline arguments traced by the real simulator (with/without -r, -m, RSTHandlerConfig). Arbitrary (non-trace) address sets are judged for termination/tiling/map-in-code only. An overlap warning caused by a code-map instruction that straddles the requested END is inherent in the input and not counted.',
          'DESIGN.md §4 C14'),
  'C10': ('model_checking',
          'TLA+ SaveResume specification (two copies of the Z80!StepInt machine, SaveLoad at any boundary) model-checked for transparency; TLC judges real trace.py runs: n1+n2 instructions at once vs n1, snapshot, n2',
@@ -91,7 +91,7 @@ CHECKS = {
  'C04': ('model_checking',
          'TLA+ SubFix specification (reader state machine of the documented @*sub/@*fix, block, @org/@label/@keep/@bytes/@defb/@defs/@defw/@if semantics yielding layout, label table and images) model-checked on all small files; TLC-enumerated and TLC-simulated files plus a Python all-forms generator are rendered and run through the real skool2bin, skool2asm (output assembled by a reference resolver) and skool2html, and TLC judges ASM = bin = model and #PEEK = bin per mode and option vector',
          'All 601 TLC-enumerated files with 0-2 directives of every flag combination (> | + / !, with/without label and instruction) on one instruction x modes; 130 (quick) / 1000 (thorough) TLC-simulated files x 12 skool2bin / 9 skool2asm modes x 6 / 18 base/case/-c option vectors; random all-instruction-form files (expressions, binary and character literals, all bases, address-valued operands, @label/@keep/@nowarn/@equ) x 4 modes x 18 vectors; #PEEK in ASM and HTML output against skool2bin --data.',
-         'Single instructions of the skool2asm output are assembled by skoolkit\'s own Assembler (trusted via C02) inside a reference resolver for ORG/EQU/labels; cases where the documentation leaves the tools free (an @org that is not first in an entry, operands naming an unlabelled instruction that moved, | after an unplaced instruction ...) are counted, not judged; three documented usages fail the #PEEK clause and are open findings.',
+         'Single instructions of the skool2asm output are encoded by skoolkit\'s own Assembler (trusted via C02) inside a reference resolver for ORG/EQU/labels, but operands of the unambiguous sub-language (decimal/hex/binary numbers and character constants joined by + - *) are evaluated by the harness and passed on as decimal numbers; cases where the documentation leaves the tools free (an @org that is not first in an entry, operands naming an unlabelled instruction that moved, | after an unplaced instruction ...) are counted, not judged; three documented usages fail the #PEEK clause and are open findings.',
          'DESIGN.md §4 C04'),
  'C03': ('model_checking',
          'TLA+ state machine of the annotated disassembly document (CtlDoc, well-formedness model-checked) generates documents by TLC -simulate and an exhaustive small-scope -dump; each is round-tripped through the real sna2skool/skool2ctl, and TLC (CtlDocCases) projects skool A, ctl1 and skool B to items and decides item equality, A==B and the ctl2==ctl1 fixed point',
